@@ -1421,328 +1421,36 @@ Section UploadGuards.
   Qed.
 End UploadGuards.
 
-(* ---- undisturbed upload against the reference server ---- *)
-Section Upload.
-  Context (V : list Z) (B : Z) (crc_client crc_en : bool) (mux : list Z).
-  Context (HB : 1 <= B <= 127).
+(* ---- helpers about the segments the reference upload server queues ---- *)
+Lemma us_segments_cons k seq rest : rest <> [] ->
+  us_segments (S k) seq rest =
+  match skipn 7 rest with
+  | [] => [pad8 ((seq + 128) :: firstn 7 rest)]
+  | _ => pad8 (seq :: firstn 7 rest) :: us_segments k (seq + 1) (skipn 7 rest)
+  end.
+Proof. intros H. destruct rest; [contradiction|reflexivity]. Qed.
 
-  Notation usys := (faulty ul_srv).
-  Notation NetU := (@net (fstate usrv)).
-  Let cc := crc_client && crc_en.
+Lemma us_segments_nil k seq : us_segments k seq [] = [].
+Proof. destruct k; reflexivity. Qed.
 
-  Definition UC (done : bool) (pos crc : Z) (scrc : option Z) (a : Z) : ul :=
-    mkul done pos crc scrc a false (Some (zlen V)) cc B.
-  Definition US (st start sent : Z) : usrv := mkus st V crc_en cc B start sent true false 0 false.
-  Definition NU (sv : usrv) (q : list frame) (nc ns : Z) (log : list frame) : NetU := mknet (mkfs sv nc ns []) q log.
-
-  Lemma usend_request sv q nc ns log fr sv' outs :
-    ul_srv sv false fr = (sv', outs) ->
-    send_request usys (NU sv q nc ns log) fr =
-    NU sv' (q ++ outs) (nc + 1) (ns + zlen outs) (rev (map (cons 1) outs) ++ (0 :: fr) :: log).
-  Proof.
-    intros H. unfold send_request, NU. cbn [n_srv n_q n_log].
-    rewrite (faulty_dropc ul_srv sv nc ns [] fr sv' outs ltac:(constructor) H). reflexivity.
-  Qed.
-
-  (* shape of the segments the server queues *)
-  Lemma us_segments_cons k seq rest : rest <> [] ->
-    us_segments (S k) seq rest =
-    match skipn 7 rest with
-    | [] => [pad8 ((seq + 128) :: firstn 7 rest)]
-    | _ => pad8 (seq :: firstn 7 rest) :: us_segments k (seq + 1) (skipn 7 rest)
-    end.
-  Proof. intros H. destruct rest; [contradiction|reflexivity]. Qed.
-
-  Lemma us_segments_nil k seq : us_segments k seq [] = [].
-  Proof. destruct k; reflexivity. Qed.
-
-  Definition endf_facts (n : Z) : bool :=
-    negb (193 + 4 * n =? 128) && (Z.land (193 + 4 * n) 224 =? 192) && (Z.land (193 + 4 * n) 3 =? 1) &&
-    (Z.land (Z.shiftr (193 + 4 * n) 2) 7 =? n).
-  Lemma endf_bits n : 0 <= n <= 6 ->
-    (193 + 4 * n =? 128) = false /\ Z.land (193 + 4 * n) 224 = 192 /\ Z.land (193 + 4 * n) 3 = 1 /\
-    Z.land (Z.shiftr (193 + 4 * n) 2) 7 = n.
-  Proof.
-    intros H. pose proof (range_forall endf_facts 0 7 ltac:(vm_compute; reflexivity) n ltac:(lia)) as F.
-    unfold endf_facts in F. repeat (apply andb_prop in F; destruct F as [F ?]). repeat split; lia.
-  Qed.
-
-  (* ---- read(): a segment that is not the last one ---- *)
-  Lemma read_mid pos crc a (q0 q : list frame) start sent nc ns log chunk :
-    q0 = pad8 ((a + 1) :: chunk) :: q ->
-    0 <= a -> a + 1 <= B -> length chunk = 7%nat ->
-    (a + 1 = B -> q = [] /\ sent = B /\ start + 7 * B < zlen V) ->
-    exists nc' ns' log',
-    ul_read usys (UC false pos crc None a) (NU (US 2 start sent) q0 nc ns log) =
-    (Ok chunk, UC false (pos + 7) (if cc then crc_from crc chunk else crc) None (if a + 1 =? B then 0 else a + 1),
-     if a + 1 =? B
-     then NU (US 2 (start + 7 * B) (zlen (us_segments (Z.to_nat B) 1 (skipn (Z.to_nat (start + 7 * B)) V))))
-             (us_segments (Z.to_nat B) 1 (skipn (Z.to_nat (start + 7 * B)) V)) nc' ns' log'
-     else NU (US 2 start sent) q nc ns log).
-  Proof.
-    intros Hq0 Ha HaB Hc Hedge. subst q0.
-    destruct (seq_bits (a + 1) ltac:(lia)) as (L127 & _ & N128 & _ & _ & _ & _ & L128 & _).
-    unfold ul_read. cbn [UC u_done]. unfold read_response. cbn [NU n_q n_srv n_log].
-    rewrite pad8_cons by lia. rewrite Hc, Nat.sub_diag. cbn [repeat]. rewrite app_nil_r.
-    unfold read_tail, fb. cbn [nth]. change RESPONSE_ABORTED with 128. change NO_MORE_BLOCKS with 128.
-    rewrite N128. cbv beta iota. cbn [nth]. rewrite L127. cbn [UC u_ackseq]. rewrite Z.eqb_refl.
-    cbv beta iota. cbn [nth]. rewrite L128. cbn [Z.eqb negb].
-    rewrite orb_false_r. cbn [set_ackseq u_blksize u_ackseq u_done u_pos u_crc u_scrc u_error u_size u_crcsup].
-    assert (Hdata : skipn 1 (firstn 8 ((a + 1) :: chunk)) = chunk).
-    { change (firstn 8 ((a + 1) :: chunk)) with ((a + 1) :: firstn 7 chunk). cbn [skipn]. apply firstn_all2. lia. }
-    rewrite Hdata. cbn [UC u_blksize].
-    assert (Hz : zlen chunk = 7) by (unfold zlen; rewrite Hc; reflexivity).
-    destruct (Z.eq_dec (a + 1) B) as [He|Hne].
-    - destruct (Hedge He) as (Hq & Hsent & Hmore). subst q sent.
-      replace (B <=? a + 1) with true by lia. replace (a + 1 =? B) with true by lia.
-      unfold ack_block, ul_ack_request. cbn [set_ackseq u_ackseq u_blksize u_done u_pos u_crc u_scrc u_error u_size u_crcsup].
-      assert (Hsrv : ul_srv (US 2 start B) false
-                       [Z.lor REQUEST_BLOCK_UPLOAD BLOCK_TRANSFER_RESPONSE; a + 1; B; 0; 0; 0; 0; 0] =
-                     (US 2 (start + 7 * B) (zlen (us_segments (Z.to_nat B) 1 (skipn (Z.to_nat (start + 7 * B)) V))),
-                      us_segments (Z.to_nat B) 1 (skipn (Z.to_nat (start + 7 * B)) V))).
-      { change (Z.lor REQUEST_BLOCK_UPLOAD BLOCK_TRANSFER_RESPONSE) with 162.
-        unfold ul_srv, fb. cbn [length Nat.eqb negb nth].
-        change (162 =? 128) with false. change (Z.land 162 224 =? 160) with true. change (Z.land 162 3) with 2.
-        change (2 =? 0) with false. change (2 =? 3) with false. change (2 =? 2) with true. cbn [negb andb].
-        cbn [US us_state us_sent us_start us_acks_exact us_bad us_value]. change (2 =? 2) with true. cbn [andb].
-        rewrite He. replace (B <? B) with false by lia.
-        replace ((1 <=? B) && (B <=? 127)) with true by lia. rewrite Z.eqb_refl. cbn [andb].
-        replace (zlen V <=? start + 7 * B) with false by lia.
-        unfold us_send_block. cbn [us_value us_crc_en us_cc us_ended us_aborted]. reflexivity. }
-      cbn [UC set_ackseq u_ackseq u_blksize u_done u_pos u_crc u_scrc u_error u_size u_crcsup].
-      pose proof (usend_request _ [] nc ns log _ _ _ Hsrv) as Hsend. unfold NU in Hsend. rewrite Hsend. clear Hsend.
-      cbn [app u_crcsup u_scrc u_crc u_pos u_size u_done u_ackseq u_error u_blksize].
-      rewrite andb_false_r. cbn [andb]. rewrite Hz.
-      eexists _, _, _. unfold UC, NU. reflexivity.
-    - replace (B <=? a + 1) with false by lia. replace (a + 1 =? B) with false by lia.
-      cbn [set_ackseq u_crcsup u_scrc u_crc u_pos u_size u_done u_ackseq u_error u_blksize].
-      rewrite andb_false_r. cbn [andb]. rewrite Hz.
-      eexists nc, ns, log. unfold UC, NU. reflexivity.
-  Qed.
-
-  (* ---- read(): the last segment, acknowledge, end frame, CRC and size checks ---- *)
-  Lemma read_last pos crc a start nc ns log chunk (q0 : list frame) :
-    q0 = [pad8 ((a + 1 + 128) :: chunk)] ->
-    0 <= a -> a + 1 <= B -> (1 <= length chunk <= 7)%nat ->
-    zlen V <= start + 7 * (a + 1) -> pos + zlen chunk = zlen V -> pos mod 7 = 0 ->
-    (cc = true -> crc_from crc chunk = crc16 V) ->
-    exists nc' ns' log',
-    ul_read usys (UC false pos crc None a)
-            (NU (US 2 start (a + 1)) q0 nc ns log) =
-    (Ok chunk, UC true (zlen V) (if cc then crc16 V else crc) (Some (if cc then crc16 V else 0)) 0,
-     NU (US 3 (start + 7 * (a + 1)) 0) [] nc' ns' log').
-  Proof.
-    intros Hq0 Ha HaB Hc Hend Hpos Hmod Hcrc. subst q0.
-    destruct (seq_bits (a + 1) ltac:(lia)) as (_ & _ & _ & _ & L127 & _ & N128 & _ & L128).
-    set (n := 7 - zlen chunk).
-    assert (Hn : 0 <= n <= 6) by (unfold n, zlen; lia).
-    assert (Hn' : (7 - zlen V mod 7) mod 7 = n) by (unfold n; unfold zlen in *; lia).
-    destruct (endf_bits n Hn) as (E128 & E224 & E3 & En).
-    set (crcv := if cc then crc16 V else 0).
-    unfold ul_read. cbn [UC u_done]. unfold read_response. cbn [NU n_q n_srv n_log].
-    rewrite pad8_cons by lia.
-    unfold read_tail, fb. cbn [nth]. change RESPONSE_ABORTED with 128. change NO_MORE_BLOCKS with 128.
-    rewrite N128. cbv beta iota. cbn [nth]. rewrite L127. cbn [UC u_ackseq]. rewrite Z.eqb_refl.
-    cbv beta iota. cbn [nth]. rewrite L128. cbn [negb]. rewrite orb_true_r.
-    unfold ack_block, ul_ack_request.
-    cbn [UC set_ackseq u_ackseq u_blksize u_done u_pos u_crc u_scrc u_error u_size u_crcsup].
-    assert (Hsrv : ul_srv (US 2 start (a + 1)) false
-                     [Z.lor REQUEST_BLOCK_UPLOAD BLOCK_TRANSFER_RESPONSE; a + 1; B; 0; 0; 0; 0; 0] =
-                   (US 3 (start + 7 * (a + 1)) 0, [[193 + 4 * n; crcv mod 256; crcv / 256; 0; 0; 0; 0; 0]])).
-    { change (Z.lor REQUEST_BLOCK_UPLOAD BLOCK_TRANSFER_RESPONSE) with 162.
-      unfold ul_srv, fb. cbn [length Nat.eqb negb nth].
-      change (162 =? 128) with false. change (Z.land 162 224 =? 160) with true. change (Z.land 162 3) with 2.
-      change (2 =? 0) with false. change (2 =? 3) with false. change (2 =? 2) with true. cbn [negb andb].
-      cbn [US us_state us_sent us_start us_acks_exact us_bad us_value]. change (2 =? 2) with true. cbn [andb].
-      replace (a + 1 <? a + 1) with false by lia.
-      replace ((1 <=? B) && (B <=? 127)) with true by lia. rewrite Z.eqb_refl. cbn [andb].
-      replace (zlen V <=? start + 7 * (a + 1)) with true by lia.
-      rewrite Hn'. cbn [us_cc us_crc_en us_ended us_aborted us_value]. fold crcv. reflexivity. }
-    change (@nil (list Z)) with (@nil frame).
-    pose proof (usend_request _ [] nc ns log _ _ _ Hsrv) as Hsend. unfold NU in Hsend. rewrite Hsend. clear Hsend.
-    cbn [app]. unfold end_upload, read_response. cbn [n_q n_srv n_log]. unfold fb. cbn [nth].
-    change RESPONSE_ABORTED with 128. rewrite E128. cbv beta iota. cbn [nth].
-    change RESPONSE_BLOCK_UPLOAD with 192. change END_BLOCK_TRANSFER with 1. rewrite E224, E3, En.
-    cbn [Z.eqb Pos.eqb negb].
-    assert (Hdata : skipn 1 (firstn (Z.to_nat (8 - n)) ((a + 1 + 128) :: chunk ++ repeat 0 (7 - length chunk))) = chunk).
-    { replace (Z.to_nat (8 - n)) with (S (length chunk)) by (unfold n, zlen; lia).
-      cbn [firstn skipn]. rewrite firstn_app, Nat.sub_diag, firstn_all. cbn [firstn]. apply app_nil_r. }
-    rewrite Hdata.
-    cbn [u_crcsup u_scrc u_crc u_pos u_size u_done u_ackseq u_error u_blksize].
-    assert (Hsc : crcv mod 256 + 256 * (crcv / 256) = crcv) by lia. rewrite Hsc.
-    assert (Hchk : cc && true && negb (crcv =? (if cc then crc_from crc chunk else crc)) = false).
-    { unfold crcv. destruct cc eqn:Ecc; [|reflexivity]. rewrite (Hcrc eq_refl). cbn [andb]. lia. }
-    cbn [UC set_ackseq u_crcsup u_scrc u_crc u_pos u_size u_done u_ackseq u_error u_blksize].
-    rewrite Hchk. cbn [andb]. rewrite Hpos, Z.eqb_refl. cbn [negb].
-    eexists _, _, _. unfold UC, NU.
-    replace (if cc then crc_from crc chunk else crc) with (if cc then crc16 V else crc)
-      by (destruct cc eqn:Ecc; [symmetry; apply Hcrc; reflexivity|reflexivity]).
-    reflexivity.
-  Qed.
-
-  Lemma skipn_app_exact {A} (a b : list A) n : n = length a -> skipn n (a ++ b) = b.
-  Proof. intros ->. rewrite skipn_app, skipn_all, Nat.sub_diag. reflexivity. Qed.
-
-  Lemma readall_step fuel u w acc data u1 w1 : data <> [] ->
-    ul_read usys u w = (Ok data, u1, w1) ->
-    readall usys (S fuel) u w acc = readall usys fuel u1 w1 (acc ++ data).
-  Proof. intros Hne H. cbn [readall]. rewrite H. destruct data; [contradiction|reflexivity]. Qed.
-
-  (* ---- readall over the remaining value when nothing is disturbed ---- *)
-  Lemma readall_clean : forall fuel rest pre a start sent nc ns log crc (q : list frame),
-    V = pre ++ rest -> rest <> [] -> (length rest < fuel)%nat ->
-    zlen pre mod 7 = 0 -> 0 <= a < B -> start + 7 * a = zlen pre ->
-    q = us_segments (Z.to_nat (B - a)) (a + 1) rest -> sent = a + zlen q ->
-    (cc = true -> crc = crc16 pre) ->
-    exists nc' ns' log' start',
-      readall usys fuel (UC false (zlen pre) crc None a) (NU (US 2 start sent) q nc ns log) pre =
-      (Ok V, UC true (zlen V) (if cc then crc16 V else crc) (Some (if cc then crc16 V else 0)) 0,
-       NU (US 3 start' 0) [] nc' ns' log').
-  Proof.
-    induction fuel as [|f IH]; intros rest pre a start sent nc ns log crc q HV Hne Hfuel Hmod Ha Hstart Hq Hsent Hcrc; [lia|].
-    assert (HlenV : zlen V = zlen pre + zlen rest) by (rewrite HV; apply zlen_app).
-    replace (Z.to_nat (B - a)) with (S (Z.to_nat (B - a - 1))) in Hq by lia.
-    rewrite us_segments_cons in Hq by assumption.
-    destruct (skipn 7 rest) as [|y0 more0] eqn:Emore.
-    - (* the last segment *)
-      assert (Hshort : (length rest <= 7)%nat).
-      { apply (f_equal (@length Z)) in Emore. rewrite skipn_length in Emore. cbn in Emore. lia. }
-      assert (Hf : firstn 7 rest = rest) by (apply firstn_all2; assumption).
-      rewrite Hf in Hq. assert (Hzq : zlen q = 1) by (rewrite Hq; reflexivity). rewrite Hzq in Hsent. subst sent.
-      assert (Hlen1 : (1 <= length rest)%nat) by (destruct rest; [contradiction|cbn; lia]).
-      destruct (read_last (zlen pre) crc a start nc ns log rest q Hq ltac:(lia) ltac:(lia) ltac:(lia))
-        as (nc' & ns' & log' & Hread); try (unfold zlen in *; lia).
-      { intros Hc. rewrite (Hcrc Hc), HV. symmetry. apply crc_from_app. }
-      rewrite (readall_step f _ _ pre rest _ _ Hne Hread).
-      destruct f as [|f']; [lia|]. cbn [readall ul_read UC u_done].
-      exists nc', ns', log', (start + 7 * (a + 1)). rewrite <- HV. reflexivity.
-    - (* a full segment, more follow *)
-      assert (Hlong : (7 < length rest)%nat).
-      { apply (f_equal (@length Z)) in Emore. rewrite skipn_length in Emore. cbn in Emore. lia. }
-      pose proof (firstn7_full rest ltac:(lia)) as H7.
-      set (chunk := firstn 7 rest) in *.
-      assert (Hrest : rest = chunk ++ skipn 7 rest) by (symmetry; apply firstn_skipn).
-      rewrite Emore in Hrest.
-      assert (Hz7 : zlen rest = 7 + zlen (y0 :: more0)).
-      { rewrite Hrest at 1. rewrite zlen_app, (len7_zlen chunk H7). reflexivity. }
-      pose proof (zlen_nonneg more0) as Hm0. rewrite zlen_cons in Hz7.
-      remember (us_segments (Z.to_nat (B - a - 1)) (a + 1 + 1) (y0 :: more0)) as q' eqn:Eq'.
-      assert (Hzq : zlen q = 1 + zlen q') by (rewrite Hq; apply zlen_cons). rewrite Hzq in Hsent.
-      assert (Hchunk_ne : chunk <> []) by (intros E; rewrite E in H7; discriminate).
-      assert (HV' : V = (pre ++ chunk) ++ (y0 :: more0)) by (rewrite <- app_assoc, <- Hrest; exact HV).
-      assert (Hmod' : zlen (pre ++ chunk) mod 7 = 0) by (rewrite zlen_app, (len7_zlen chunk H7); lia).
-      assert (Hcrc' : cc = true -> (if cc then crc_from crc chunk else crc) = crc16 (pre ++ chunk)).
-      { intros Hc. rewrite Hc, (Hcrc Hc). symmetry. apply crc_from_app. }
-      assert (Hzp : zlen pre + 7 = zlen (pre ++ chunk)) by (rewrite zlen_app, (len7_zlen chunk H7); reflexivity).
-      destruct (read_mid (zlen pre) crc a q q' start sent nc ns log chunk Hq ltac:(lia) ltac:(lia) H7)
-        as (nc' & ns' & log' & Hread).
-      { intros He. assert (Hk0 : Z.to_nat (B - a - 1) = 0%nat) by lia. rewrite Hk0 in Eq'. cbn [us_segments] in Eq'. subst q'.
-        change (zlen (@nil frame)) with 0 in Hsent. split; [reflexivity|]. split; lia. }
-      rewrite (readall_step f _ _ pre chunk _ _ Hchunk_ne Hread). rewrite Hzp.
-      assert (Hfuel' : (length (y0 :: more0) < f)%nat).
-      { apply (f_equal (@length Z)) in Hrest. rewrite app_length, H7 in Hrest. lia. }
-      destruct (Z.eq_dec (a + 1) B) as [He|Hne'].
-      + replace (a + 1 =? B) with true by lia.
-        assert (Hskip : skipn (Z.to_nat (start + 7 * B)) V = y0 :: more0).
-        { rewrite HV'. apply skipn_app_exact. unfold zlen in *. lia. }
-        rewrite Hskip.
-        destruct (IH (y0 :: more0) (pre ++ chunk) 0 (start + 7 * B)
-                     (zlen (us_segments (Z.to_nat B) 1 (y0 :: more0))) nc' ns' log'
-                     (if cc then crc_from crc chunk else crc) (us_segments (Z.to_nat B) 1 (y0 :: more0)))
-          as (nc'' & ns'' & log'' & start'' & Hrun); try assumption; try lia; try discriminate.
-        * rewrite Z.sub_0_r. reflexivity.
-        * exists nc'', ns'', log'', start''. rewrite Hrun.
-          destruct cc eqn:Ecc; reflexivity.
-      + replace (a + 1 =? B) with false by lia.
-        destruct (IH (y0 :: more0) (pre ++ chunk) (a + 1) start sent nc ns log
-                     (if cc then crc_from crc chunk else crc) q')
-          as (nc'' & ns'' & log'' & start'' & Hrun); try assumption; try lia; try discriminate.
-        * rewrite Eq'. f_equal. lia.
-        * exists nc'', ns'', log'', start''. rewrite Hrun.
-          destruct cc eqn:Ecc; reflexivity.
-  Qed.
-
-  (* ---- __init__ against the idle server, and the start request ---- *)
-  Lemma ul_init_ok index sub : zlen V < 4294967296 ->
-    exists nc ns log,
-      ul_init usys (mknet (fs_init (us_init V crc_en) []) [] []) index sub B crc_client =
-      (Ok (UC false 0 0 None 0),
-       NU (US 2 0 (zlen (us_segments (Z.to_nat B) 1 V))) (us_segments (Z.to_nat B) 1 V) nc ns log).
-  Proof.
-    intros Hsz. pose proof (zlen_nonneg V) as HV0.
-    unfold ul_init, request_response, fs_init, us_init. cbn [n_q].
-    set (req := ul_init_request index sub B crc_client).
-    assert (Hreq : req = [(if crc_client then 164 else 160); index mod 256; index / 256; sub; B; 0; 0; 0]).
-    { unfold req, ul_init_request. destruct crc_client; reflexivity. }
-    assert (Hdec : le_decode (le_encode 4 (zlen V)) = zlen V).
-    { rewrite le_decode_encode. apply Z.mod_small. change (2 ^ (8 * Z.of_nat 4)) with 4294967296. lia. }
-    assert (Hsrv : ul_srv (mkus 0 V crc_en false 0 0 0 true false 0 false) false req =
-                   (mkus 1 V crc_en cc B 0 0 true false 0 false,
-                    [(194 + (if crc_en then 4 else 0)) :: [index mod 256; index / 256; sub] ++ le_encode 4 (zlen V)])).
-    { rewrite Hreq. unfold ul_srv, fb. cbn [length Nat.eqb negb nth].
-      replace ((if crc_client then 164 else 160) =? 128) with false by (destruct crc_client; reflexivity).
-      replace (Z.land (if crc_client then 164 else 160) 224 =? 160) with true by (destruct crc_client; reflexivity).
-      replace (Z.land (if crc_client then 164 else 160) 3) with 0 by (destruct crc_client; reflexivity).
-      replace (Z.testbit (if crc_client then 164 else 160) 2) with crc_client by (destruct crc_client; reflexivity).
-      cbn [negb us_state Z.eqb andb us_value us_crc_en us_bad us_aborted firstn skipn].
-      replace ((1 <=? B) && (B <=? 127)) with true by lia. reflexivity. }
-    pose proof (usend_request _ [] 0 0 [] req _ _ Hsrv) as Hsend. unfold NU in Hsend. rewrite Hsend. clear Hsend.
-    unfold read_response. cbn [app n_q n_srv n_log]. unfold fb at 1. cbn [nth].
-    replace (194 + (if crc_en then 4 else 0) =? RESPONSE_ABORTED) with false by (destruct crc_en; reflexivity).
-    cbv beta iota. unfold fb. cbn [nth].
-    replace (Z.land (194 + (if crc_en then 4 else 0)) 224 =? RESPONSE_BLOCK_UPLOAD) with true by (destruct crc_en; reflexivity).
-    replace (index mod 256 + 256 * (index / 256) =? index) with true by lia.
-    rewrite Z.eqb_refl. cbn [negb orb].
-    replace (Z.land (194 + (if crc_en then 4 else 0)) BLOCK_SIZE_SPECIFIED =? 0) with false by (destruct crc_en; reflexivity).
-    replace (negb (Z.land (194 + (if crc_en then 4 else 0)) CRC_SUPPORTED =? 0)) with crc_en by (destruct crc_en; reflexivity).
-    change (skipn 4 (194 + (if crc_en then 4 else 0) :: index mod 256 :: index / 256 :: sub :: le_encode 4 (zlen V)))
-      with (le_encode 4 (zlen V)).
-    rewrite (firstn_all2 (n := 4) (le_encode 4 (zlen V))) by (rewrite le_encode_length; lia).
-    rewrite Hdec.
-    assert (Hsrv2 : ul_srv (mkus 1 V crc_en cc B 0 0 true false 0 false) false ul_start_request =
-                    (US 2 0 (zlen (us_segments (Z.to_nat B) 1 V)), us_segments (Z.to_nat B) 1 V)).
-    { unfold ul_srv, ul_start_request, fb. cbn [length Nat.eqb negb nth].
-      change (Z.lor REQUEST_BLOCK_UPLOAD START_BLOCK_UPLOAD) with 163.
-      change (163 =? 128) with false. change (Z.land 163 224 =? 160) with true. change (Z.land 163 3) with 3.
-      cbn [negb us_state Z.eqb Pos.eqb andb]. unfold us_send_block.
-      cbn [us_blksize us_acks_exact us_bad us_value us_crc_en us_cc us_ended us_aborted skipn Z.to_nat]. reflexivity. }
-    match goal with
-    | |- context [send_request usys (mknet (mkfs ?sv ?nc ?ns []) ?q ?log) ul_start_request] =>
-        pose proof (usend_request sv q nc ns log ul_start_request _ _ Hsrv2) as Hsend
-    end.
-    unfold NU in Hsend. rewrite Hsend. clear Hsend.
-    eexists _, _, _. unfold UC, NU. reflexivity.
-  Qed.
-End Upload.
-
-(* ------------------------------------------------------------------ C13 block_upload_exact *)
-Lemma block_upload_exact : forall (V : list Z) (B index sub : Z) (crc_client crc_server : bool) (fuel : nat),
-  1 <= zlen V < 4294967296 -> 1 <= B <= 127 -> (length V + 1 < fuel)%nat ->
-  exists u w,
-    ul_transfer (faulty ul_srv) fuel (mknet (fs_init (us_init V crc_server) []) [] []) index sub B crc_client = (Ok V, u, w) /\
-    u_done u = true /\ u_error u = false /\
-    (* the server saw the transfer closed, every acknowledge carried the number of segments sent, no violation *)
-    us_ended (f_inner (n_srv w)) = true /\ us_acks_exact (f_inner (n_srv w)) = true /\ us_bad (f_inner (n_srv w)) = 0.
+Definition endf_facts (n : Z) : bool :=
+  negb (193 + 4 * n =? 128) && (Z.land (193 + 4 * n) 224 =? 192) && (Z.land (193 + 4 * n) 3 =? 1) &&
+  (Z.land (Z.shiftr (193 + 4 * n) 2) 7 =? n).
+Lemma endf_bits n : 0 <= n <= 6 ->
+  (193 + 4 * n =? 128) = false /\ Z.land (193 + 4 * n) 224 = 192 /\ Z.land (193 + 4 * n) 3 = 1 /\
+  Z.land (Z.shiftr (193 + 4 * n) 2) 7 = n.
 Proof.
-  intros V B index sub crc_client crc_server fuel HV HB Hfuel.
-  destruct (ul_init_ok V B crc_client crc_server HB index sub ltac:(lia)) as (nc & ns & log & Hinit).
-  unfold ul_transfer. rewrite Hinit.
-  destruct (readall_clean V B crc_client crc_server HB fuel V [] 0 0 (zlen (us_segments (Z.to_nat B) 1 V)) nc ns log 0
-              (us_segments (Z.to_nat B) 1 V)) as (nc' & ns' & log' & start' & Hrun);
-    try reflexivity; try lia.
-  - intros E. subst V. cbn in HV. lia.
-  - rewrite Z.sub_0_r. reflexivity.
-  - change (zlen (@nil Z)) with 0 in Hrun. rewrite Hrun.
-    unfold ul_close. cbn [UC u_done u_error negb andb].
-    assert (Hsrv : ul_srv (US V B crc_client crc_server 3 start' 0) false ul_end_request =
-                   (mkus 0 V crc_server (crc_client && crc_server) B start' 0 true true 0 false, [])).
-    { unfold ul_srv, ul_end_request, fb. cbn [length Nat.eqb negb nth].
-      change (Z.lor REQUEST_BLOCK_UPLOAD END_BLOCK_TRANSFER) with 161.
-      change (161 =? 128) with false. change (Z.land 161 224 =? 160) with true. change (Z.land 161 3) with 1.
-      cbn [negb US us_state Z.eqb Pos.eqb andb]. reflexivity. }
-    rewrite (usend_request _ _ _ _ _ _ _ _ Hsrv).
-    eexists _, _. split; [reflexivity|]. cbn. repeat split; reflexivity.
+  intros H. pose proof (range_forall endf_facts 0 7 ltac:(vm_compute; reflexivity) n ltac:(lia)) as F.
+  unfold endf_facts in F. repeat (apply andb_prop in F; destruct F as [F ?]). repeat split; lia.
 Qed.
+
+Lemma skipn_app_exact {A} (a b : list A) n : n = length a -> skipn n (a ++ b) = b.
+Proof. intros ->. rewrite skipn_app, skipn_all, Nat.sub_diag. reflexivity. Qed.
+
+Lemma readall_step fuel u (w : @net (fstate usrv)) acc data u1 w1 : data <> [] ->
+  ul_read (faulty ul_srv) u w = (Ok data, u1, w1) ->
+  readall (faulty ul_srv) (S fuel) u w acc = readall (faulty ul_srv) fuel u1 w1 (acc ++ data).
+Proof. intros Hne H. cbn [readall]. rewrite H. destruct data; [contradiction|reflexivity]. Qed.
 
 (* ------------------------------------------------------------------ C12 normal_return_means_committed *)
 Lemma only_dropc_map drops : only_dropc (map FDropC drops).
@@ -1967,7 +1675,8 @@ Proof.
   destruct (negb (Z.land (fb fr 0) 224 =? 160)); [cbn [snd]; constructor; [apply abort_frame_len8; exact H8|constructor]|].
   assert (Hmux : length (firstn 3 (skipn 1 fr)) = 3%nat) by (unfold len8 in H8; rewrite firstn_length, skipn_length; lia).
   destruct ((Z.land (fb fr 0) 3 =? 0) && (us_state s =? 0)).
-  { cbn [snd]. constructor; [|constructor]. unfold len8. cbn [length]. rewrite app_length, Hmux, le_encode_length. reflexivity. }
+  { cbn [snd]. constructor; [|constructor]. unfold len8. cbn [length]. rewrite app_length, Hmux.
+    destruct (us_sizeind s); [rewrite le_encode_length|]; reflexivity. }
   destruct ((Z.land (fb fr 0) 3 =? 3) && (us_state s =? 1)).
   { unfold us_send_block. cbn [snd]. apply us_segments_len8. }
   destruct ((Z.land (fb fr 0) 3 =? 2) && (us_state s =? 2)).
@@ -1980,13 +1689,13 @@ Qed.
 
 (* C13 crc_guard for the reference server under ANY fault list: a normal return is a completed transfer,
    its data have the announced CRC (when negotiated) and the announced length *)
-Lemma crc_guard_ref : forall (V : list Z) (crc_server : bool) (faults : list fault) fuel index sub blksize crc data u w',
-  ul_transfer (faulty ul_srv) fuel (mknet (fs_init (us_init V crc_server) faults) [] []) index sub blksize crc = (Ok data, u, w') ->
+Lemma crc_guard_ref : forall (V : list Z) (crc_server size_ind : bool) (faults : list fault) fuel index sub blksize crc data u w',
+  ul_transfer (faulty ul_srv) fuel (mknet (fs_init (us_init V crc_server size_ind) faults) [] []) index sub blksize crc = (Ok data, u, w') ->
   u_done u = true /\
   (u_crcsup u = true -> u_scrc u = Some (crc16 data)) /\
   (forall s, u_size u = Some s -> zlen data = s).
 Proof.
-  intros V crc_server faults fuel index sub blksize crc data u w' H.
+  intros V crc_server size_ind faults fuel index sub blksize crc data u w' H.
   assert (Hd : u_done u = true).
   { eapply (ul_transfer_done (faulty ul_srv)); [|exact H]. apply faulty_len8. apply ul_srv_len8. }
   split; [exact Hd|]. exact (crc_size_guard (faulty ul_srv) _ _ _ _ _ _ _ _ _ H Hd).
@@ -2027,7 +1736,7 @@ Lemma lostb_drops j k : lostb [FDropS j] k = false.
 Proof. reflexivity. Qed.
 
 Section UploadF.
-  Context (V : list Z) (B : Z) (crc_client crc_en : bool) (faults : list fault).
+  Context (V : list Z) (B : Z) (crc_client crc_en si : bool) (faults : list fault).
   Context (HB : 1 <= B <= 127).
   Context (Hnl : forall k, lostb faults k = false).
 
@@ -2036,8 +1745,8 @@ Section UploadF.
   Let cc := crc_client && crc_en.
 
   Definition UCF (done : bool) (pos crc : Z) (scrc : option Z) (a : Z) : ul :=
-    mkul done pos crc scrc a false (Some (zlen V)) cc B.
-  Definition USF (st start sent : Z) (ex : bool) : usrv := mkus st V crc_en cc B start sent ex false 0 false.
+    mkul done pos crc scrc a false (if si then Some (zlen V) else None) cc B.
+  Definition USF (st start sent : Z) (ex : bool) : usrv := mkus st V crc_en cc B start sent ex false 0 false si.
   Definition NUF (sv : usrv) (q : list frame) (nc ns : Z) (log : list frame) : NetU := mknet (mkfs sv nc ns faults) q log.
 
   Lemma usend_requestF sv (q : list frame) nc ns log fr sv' outs :
@@ -2143,7 +1852,7 @@ Section UploadF.
     set (n := 7 - zlen chunk).
     assert (Hn : 0 <= n <= 6) by (unfold n, zlen; lia).
     assert (Hn' : (7 - zlen V mod 7) mod 7 = n) by (unfold n; unfold zlen in *; lia).
-    destruct (endf_bits true true n Hn) as (E128 & E224 & E3 & En).
+    destruct (endf_bits n Hn) as (E128 & E224 & E3 & En).
     set (crcv := if cc then crc16 V else 0).
     rewrite pad8_cons by lia.
     unfold read_tail, fb. cbn [nth]. change NO_MORE_BLOCKS with 128. rewrite L128. cbn [negb]. rewrite orb_true_r.
@@ -2163,7 +1872,10 @@ Section UploadF.
     assert (Hsc : crcv mod 256 + 256 * (crcv / 256) = crcv) by lia. rewrite Hsc.
     assert (Hchk : cc && true && negb (crcv =? (if cc then crc_from crc chunk else crc)) = false).
     { unfold crcv. destruct cc eqn:Ecc; [|reflexivity]. rewrite (Hcrc eq_refl). cbn [andb]. lia. }
-    cbn [UCF set_ackseq u_crcsup u_scrc u_crc u_pos u_size u_done u_ackseq u_error u_blksize]. rewrite Hchk. cbn [andb]. rewrite Hpos, Z.eqb_refl. cbn [negb].
+    cbn [UCF set_ackseq u_crcsup u_scrc u_crc u_pos u_size u_done u_ackseq u_error u_blksize]. rewrite Hchk. cbn [andb]. rewrite Hpos.
+    assert (Hszchk : match (if si then Some (zlen V) else None) with Some s0 => negb (zlen V =? s0) | None => false end = false).
+    { destruct si; [rewrite Z.eqb_refl|]; reflexivity. }
+    rewrite Hszchk.
     change (zlen [[193 + 4 * n; crcv mod 256; crcv / 256; 0; 0; 0; 0; 0]]) with 1.
     eexists. unfold UCF, NUF.
     replace (if cc then crc_from crc chunk else crc) with (if cc then crc16 V else crc)
@@ -2533,6 +2245,102 @@ Section UploadF.
       + eexists _, _, _, _, _. rewrite Hrun. destruct cc eqn:Ecc; reflexivity.
   Qed.
 
+  (* ---- __init__ and the start request; the initiate response (server frame 1) arrives unharmed ---- *)
+  Lemma ul_init_okF index sub : zlen V < 4294967296 ->
+    (forall outs : list frame, zlen outs = 1 -> mangle faults 0 outs = outs) ->
+    exists log,
+      ul_init usys (mknet (fs_init (us_init V crc_en si) faults) [] []) index sub B crc_client =
+      (Ok (UCF false 0 0 None 0),
+       NUF (USF 2 0 (zlen (us_segments (Z.to_nat B) 1 V)) true) (mangle faults 1 (us_segments (Z.to_nat B) 1 V)) 2
+          (1 + zlen (us_segments (Z.to_nat B) 1 V)) log).
+  Proof.
+    intros Hsz Hpass0. pose proof (zlen_nonneg V) as HV0.
+    unfold ul_init, request_response, fs_init, us_init. cbn [n_q].
+    set (req := ul_init_request index sub B crc_client).
+    assert (Hreq : req = [(if crc_client then 164 else 160); index mod 256; index / 256; sub; B; 0; 0; 0]).
+    { unfold req, ul_init_request. destruct crc_client; reflexivity. }
+    assert (Hdec : le_decode (le_encode 4 (zlen V)) = zlen V).
+    { rewrite le_decode_encode. apply Z.mod_small. change (2 ^ (8 * Z.of_nat 4)) with 4294967296. lia. }
+    set (r0 := 192 + (if si then 2 else 0) + (if crc_en then 4 else 0)).
+    set (szb := if si then le_encode 4 (zlen V) else [0; 0; 0; 0]).
+    assert (Hsrv : ul_srv (mkus 0 V crc_en false 0 0 0 true false 0 false si) false req =
+                   (mkus 1 V crc_en cc B 0 0 true false 0 false si,
+                    [r0 :: [index mod 256; index / 256; sub] ++ szb])).
+    { rewrite Hreq. unfold ul_srv, fb. cbn [length Nat.eqb negb nth].
+      replace ((if crc_client then 164 else 160) =? 128) with false by (destruct crc_client; reflexivity).
+      replace (Z.land (if crc_client then 164 else 160) 224 =? 160) with true by (destruct crc_client; reflexivity).
+      replace (Z.land (if crc_client then 164 else 160) 3) with 0 by (destruct crc_client; reflexivity).
+      replace (Z.testbit (if crc_client then 164 else 160) 2) with crc_client by (destruct crc_client; reflexivity).
+      cbn [negb us_state Z.eqb andb us_value us_crc_en us_bad us_aborted us_sizeind firstn skipn].
+      replace ((1 <=? B) && (B <=? 127)) with true by lia. reflexivity. }
+    pose proof (usend_requestF _ [] 0 0 [] req _ _ Hsrv) as Hsend. unfold NUF in Hsend. rewrite Hsend. clear Hsend.
+    rewrite !Hpass0 by reflexivity.
+    unfold read_response. cbn [app n_q n_srv n_log]. unfold fb at 1. cbn [nth].
+    replace (r0 =? RESPONSE_ABORTED) with false by (unfold r0; destruct si, crc_en; reflexivity).
+    cbv beta iota. unfold fb. cbn [nth].
+    replace (Z.land r0 224 =? RESPONSE_BLOCK_UPLOAD) with true by (unfold r0; destruct si, crc_en; reflexivity).
+    replace (index mod 256 + 256 * (index / 256) =? index) with true by lia.
+    rewrite Z.eqb_refl. cbn [negb orb].
+    replace (Z.land r0 BLOCK_SIZE_SPECIFIED =? 0) with (negb si) by (unfold r0; destruct si, crc_en; reflexivity).
+    replace (negb (Z.land r0 CRC_SUPPORTED =? 0)) with crc_en by (unfold r0; destruct si, crc_en; reflexivity).
+    change (skipn 4 (r0 :: index mod 256 :: index / 256 :: sub :: szb)) with szb.
+    assert (Hsize : (if negb si then None else Some (le_decode (firstn 4 szb))) = (if si then Some (zlen V) else None)).
+    { unfold szb. destruct si; cbn [negb]; [|reflexivity].
+      rewrite (firstn_all2 (n := 4) (le_encode 4 (zlen V))) by (rewrite le_encode_length; lia). rewrite Hdec. reflexivity. }
+    rewrite Hsize.
+    assert (Hsrv2 : ul_srv (mkus 1 V crc_en cc B 0 0 true false 0 false si) false ul_start_request =
+                    (USF 2 0 (zlen (us_segments (Z.to_nat B) 1 V)) true, us_segments (Z.to_nat B) 1 V)).
+    { unfold ul_srv, ul_start_request, fb. cbn [length Nat.eqb negb nth].
+      change (Z.lor REQUEST_BLOCK_UPLOAD START_BLOCK_UPLOAD) with 163.
+      change (163 =? 128) with false. change (Z.land 163 224 =? 160) with true. change (Z.land 163 3) with 3.
+      cbn [negb us_state Z.eqb Pos.eqb andb]. unfold us_send_block.
+      cbn [us_blksize us_acks_exact us_bad us_value us_crc_en us_cc us_ended us_aborted us_sizeind skipn Z.to_nat]. reflexivity. }
+    match goal with
+    | |- context [send_request usys (mknet (mkfs ?sv ?nc ?ns faults) ?q ?log) ul_start_request] =>
+        pose proof (usend_requestF sv q nc ns log ul_start_request _ _ Hsrv2) as Hsend
+    end.
+    unfold NUF in Hsend. rewrite Hsend. clear Hsend.
+    eexists. unfold UCF, NUF. reflexivity.
+  Qed.
+
+  (* ---- close() after a completed transfer ---- *)
+  Lemma ul_close_ok pos crc scrc start ex nc ns log :
+    exists w, ul_close usys (UCF true pos crc scrc 0) (NUF (USF 3 start 0 ex) [] nc ns log) = w /\
+      us_ended (f_inner (n_srv w)) = true /\ us_bad (f_inner (n_srv w)) = 0 /\ us_acks_exact (f_inner (n_srv w)) = ex.
+  Proof.
+    unfold ul_close. cbn [UCF u_done u_error negb andb].
+    assert (Hsrv : ul_srv (USF 3 start 0 ex) false ul_end_request =
+                   (mkus 0 V crc_en cc B start 0 ex true 0 false si, [])).
+    { unfold ul_srv, ul_end_request, fb. cbn [length Nat.eqb negb nth].
+      change (Z.lor REQUEST_BLOCK_UPLOAD END_BLOCK_TRANSFER) with 161.
+      change (161 =? 128) with false. change (Z.land 161 224 =? 160) with true. change (Z.land 161 3) with 1.
+      cbn [negb USF us_state Z.eqb Pos.eqb andb]. reflexivity. }
+    rewrite (usend_requestF _ _ _ _ _ _ _ _ Hsrv). eexists. split; [reflexivity|]. cbn. repeat split; reflexivity.
+  Qed.
+
+  (* ---- undisturbed: nothing the server emits is touched ---- *)
+  Lemma upload_exact_section index sub fuel :
+    1 <= zlen V < 4294967296 -> past 0 -> (length V + 1 < fuel)%nat ->
+    exists u w,
+      ul_transfer usys fuel (mknet (fs_init (us_init V crc_en si) faults) [] []) index sub B crc_client = (Ok V, u, w) /\
+      u_done u = true /\ u_error u = false /\
+      us_ended (f_inner (n_srv w)) = true /\ us_acks_exact (f_inner (n_srv w)) = true /\ us_bad (f_inner (n_srv w)) = 0.
+  Proof.
+    intros HV Hpast Hfuel.
+    destruct (ul_init_okF index sub ltac:(lia) (fun outs _ => Hpast 0 outs (Z.le_refl 0))) as (log & Hinit).
+    unfold ul_transfer. rewrite Hinit. rewrite (Hpast 1 _ ltac:(lia)).
+    assert (HVne : V <> []) by (intros E; rewrite E in HV; cbn in HV; lia).
+    destruct (readall_cleanF fuel V [] 0 0 (zlen (us_segments (Z.to_nat B) 1 V)) true 2
+                (1 + zlen (us_segments (Z.to_nat B) 1 V)) log 0 (us_segments (Z.to_nat B) 1 V) eq_refl HVne)
+      as (nc' & ns' & log' & start' & Hrun); try reflexivity; try lia.
+    - rewrite Z.sub_0_r. reflexivity.
+    - apply (past_mono 0); [pose proof (zlen_nonneg (us_segments (Z.to_nat B) 1 V)); lia|exact Hpast].
+    - change (zlen (@nil Z)) with 0 in Hrun. rewrite Hrun.
+      destruct (ul_close_ok (zlen V) (if cc then crc16 V else 0) (Some (if cc then crc16 V else 0)) start' true nc' ns' log')
+        as (w & Hw & He & Hb & Hx).
+      rewrite Hw. eexists _, w. split; [reflexivity|]. repeat split; assumption.
+  Qed.
+
   (* ---- exactly one server frame, the j-th, is lost ---- *)
   Context (j : Z).
   Context (Hdrop : forall ns outs, mangle faults ns outs =
@@ -2626,70 +2434,16 @@ Section UploadF.
         * eexists _, _, _, _, _. rewrite Hrun. destruct cc eqn:Ecc; reflexivity.
   Qed.
 
-  (* ---- __init__ and the start request when the first two server emissions start at ordinals 1 and 2 ---- *)
-  Lemma ul_init_okF index sub : zlen V < 4294967296 -> 2 <= j ->
-    exists log,
-      ul_init usys (mknet (fs_init (us_init V crc_en) faults) [] []) index sub B crc_client =
-      (Ok (UCF false 0 0 None 0),
-       NUF (USF 2 0 (zlen (us_segments (Z.to_nat B) 1 V)) true) (mangle faults 1 (us_segments (Z.to_nat B) 1 V)) 2
-          (1 + zlen (us_segments (Z.to_nat B) 1 V)) log).
-  Proof.
-    intros Hsz Hj. pose proof (zlen_nonneg V) as HV0.
-    unfold ul_init, request_response, fs_init, us_init. cbn [n_q].
-    set (req := ul_init_request index sub B crc_client).
-    assert (Hreq : req = [(if crc_client then 164 else 160); index mod 256; index / 256; sub; B; 0; 0; 0]).
-    { unfold req, ul_init_request. destruct crc_client; reflexivity. }
-    assert (Hdec : le_decode (le_encode 4 (zlen V)) = zlen V).
-    { rewrite le_decode_encode. apply Z.mod_small. change (2 ^ (8 * Z.of_nat 4)) with 4294967296. lia. }
-    assert (Hsrv : ul_srv (mkus 0 V crc_en false 0 0 0 true false 0 false) false req =
-                   (mkus 1 V crc_en cc B 0 0 true false 0 false,
-                    [(194 + (if crc_en then 4 else 0)) :: [index mod 256; index / 256; sub] ++ le_encode 4 (zlen V)])).
-    { rewrite Hreq. unfold ul_srv, fb. cbn [length Nat.eqb negb nth].
-      replace ((if crc_client then 164 else 160) =? 128) with false by (destruct crc_client; reflexivity).
-      replace (Z.land (if crc_client then 164 else 160) 224 =? 160) with true by (destruct crc_client; reflexivity).
-      replace (Z.land (if crc_client then 164 else 160) 3) with 0 by (destruct crc_client; reflexivity).
-      replace (Z.testbit (if crc_client then 164 else 160) 2) with crc_client by (destruct crc_client; reflexivity).
-      cbn [negb us_state Z.eqb andb us_value us_crc_en us_bad us_aborted firstn skipn].
-      replace ((1 <=? B) && (B <=? 127)) with true by lia. reflexivity. }
-    pose proof (usend_requestF _ [] 0 0 [] req _ _ Hsrv) as Hsend. unfold NUF in Hsend. rewrite Hsend. clear Hsend.
-    assert (Hpass0 : forall outs : list frame, zlen outs = 1 -> mangle faults 0 outs = outs).
-    { intros outs Ho. rewrite Hdrop, Ho. replace ((0 <? j) && (j <=? 0 + 1)) with false by lia. reflexivity. }
-    rewrite !Hpass0 by reflexivity.
-    unfold read_response. cbn [app n_q n_srv n_log]. unfold fb at 1. cbn [nth].
-    replace (194 + (if crc_en then 4 else 0) =? RESPONSE_ABORTED) with false by (destruct crc_en; reflexivity).
-    cbv beta iota. unfold fb. cbn [nth].
-    replace (Z.land (194 + (if crc_en then 4 else 0)) 224 =? RESPONSE_BLOCK_UPLOAD) with true by (destruct crc_en; reflexivity).
-    replace (index mod 256 + 256 * (index / 256) =? index) with true by lia.
-    rewrite Z.eqb_refl. cbn [negb orb].
-    replace (Z.land (194 + (if crc_en then 4 else 0)) BLOCK_SIZE_SPECIFIED =? 0) with false by (destruct crc_en; reflexivity).
-    replace (negb (Z.land (194 + (if crc_en then 4 else 0)) CRC_SUPPORTED =? 0)) with crc_en by (destruct crc_en; reflexivity).
-    change (skipn 4 (194 + (if crc_en then 4 else 0) :: index mod 256 :: index / 256 :: sub :: le_encode 4 (zlen V)))
-      with (le_encode 4 (zlen V)).
-    rewrite (firstn_all2 (n := 4) (le_encode 4 (zlen V))) by (rewrite le_encode_length; lia).
-    rewrite Hdec.
-    assert (Hsrv2 : ul_srv (mkus 1 V crc_en cc B 0 0 true false 0 false) false ul_start_request =
-                    (USF 2 0 (zlen (us_segments (Z.to_nat B) 1 V)) true, us_segments (Z.to_nat B) 1 V)).
-    { unfold ul_srv, ul_start_request, fb. cbn [length Nat.eqb negb nth].
-      change (Z.lor REQUEST_BLOCK_UPLOAD START_BLOCK_UPLOAD) with 163.
-      change (163 =? 128) with false. change (Z.land 163 224 =? 160) with true. change (Z.land 163 3) with 3.
-      cbn [negb us_state Z.eqb Pos.eqb andb]. unfold us_send_block.
-      cbn [us_blksize us_acks_exact us_bad us_value us_crc_en us_cc us_ended us_aborted skipn Z.to_nat]. reflexivity. }
-    match goal with
-    | |- context [send_request usys (mknet (mkfs ?sv ?nc ?ns faults) ?q ?log) ul_start_request] =>
-        pose proof (usend_requestF sv q nc ns log ul_start_request _ _ Hsrv2) as Hsend
-    end.
-    unfold NUF in Hsend. rewrite Hsend. clear Hsend.
-    eexists. unfold UCF, NUF. reflexivity.
-  Qed.
-
   Lemma upload_single_loss_section index sub fuel :
     1 <= zlen V < 4294967296 -> 2 <= j <= 1 + (zlen V + 6) / 7 -> (length V + 1 < fuel)%nat ->
     exists u w,
-      ul_transfer usys fuel (mknet (fs_init (us_init V crc_en) faults) [] []) index sub B crc_client = (Ok V, u, w) /\
+      ul_transfer usys fuel (mknet (fs_init (us_init V crc_en si) faults) [] []) index sub B crc_client = (Ok V, u, w) /\
       u_done u = true /\ u_error u = false /\ us_ended (f_inner (n_srv w)) = true /\ us_bad (f_inner (n_srv w)) = 0.
   Proof.
     intros HV Hj Hfuel.
-    destruct (ul_init_okF index sub ltac:(lia) ltac:(lia)) as (log & Hinit).
+    assert (Hpass0 : forall outs : list frame, zlen outs = 1 -> mangle faults 0 outs = outs).
+    { intros outs Ho. rewrite Hdrop, Ho. replace ((0 <? j) && (j <=? 0 + 1)) with false by lia. reflexivity. }
+    destruct (ul_init_okF index sub ltac:(lia) Hpass0) as (log & Hinit).
     unfold ul_transfer. rewrite Hinit.
     assert (HVne : V <> []) by (intros E; rewrite E in HV; cbn in HV; lia).
     set (nb := us_segments (Z.to_nat B) 1 V) in *.
@@ -2710,27 +2464,38 @@ Section UploadF.
         rewrite Z.sub_0_r. reflexivity. }
     destruct Hrun as (nc' & ns' & log' & start' & ex' & Hrun).
     change (zlen (@nil Z)) with 0 in Hrun. rewrite Hrun.
-    unfold ul_close. cbn [UCF u_done u_error negb andb].
-    assert (Hsrv : ul_srv (USF 3 start' 0 ex') false ul_end_request =
-                   (mkus 0 V crc_en cc B start' 0 ex' true 0 false, [])).
-    { unfold ul_srv, ul_end_request, fb. cbn [length Nat.eqb negb nth].
-      change (Z.lor REQUEST_BLOCK_UPLOAD END_BLOCK_TRANSFER) with 161.
-      change (161 =? 128) with false. change (Z.land 161 224 =? 160) with true. change (Z.land 161 3) with 1.
-      cbn [negb USF us_state Z.eqb Pos.eqb andb]. reflexivity. }
-    rewrite (usend_requestF _ _ _ _ _ _ _ _ Hsrv).
-    eexists _, _. split; [reflexivity|]. cbn. repeat split; reflexivity.
+    destruct (ul_close_ok (zlen V) (if cc then crc16 V else 0) (Some (if cc then crc16 V else 0)) start' ex' nc' ns' log')
+      as (w & Hw & He & Hb & Hx).
+    rewrite Hw. eexists _, w. split; [reflexivity|]. repeat split; assumption.
   Qed.
 End UploadF.
 
+(* ------------------------------------------------------------------ C13 block_upload_exact *)
+Lemma mangle_nil ns outs : mangle [] ns outs = outs.
+Proof. revert ns. induction outs as [|fr r IH]; intros ns; cbn [mangle mangle1 app]; [reflexivity|]. now rewrite IH. Qed.
+
+Lemma block_upload_exact : forall (V : list Z) (B index sub : Z) (crc_client crc_server size_ind : bool) (fuel : nat),
+  1 <= zlen V < 4294967296 -> 1 <= B <= 127 -> (length V + 1 < fuel)%nat ->
+  exists u w,
+    ul_transfer (faulty ul_srv) fuel (mknet (fs_init (us_init V crc_server size_ind) []) [] []) index sub B crc_client = (Ok V, u, w) /\
+    u_done u = true /\ u_error u = false /\
+    us_ended (f_inner (n_srv w)) = true /\ us_acks_exact (f_inner (n_srv w)) = true /\ us_bad (f_inner (n_srv w)) = 0.
+Proof.
+  intros V B index sub crc_client crc_server size_ind fuel HV HB Hfuel.
+  apply (upload_exact_section V B crc_client crc_server size_ind [] HB (fun _ => eq_refl) index sub fuel HV); [|exact Hfuel].
+  intros ns outs _. apply mangle_nil.
+Qed.
+
 (* ------------------------------------------------------------------ C13 single_loss_repaired *)
 Lemma upload_single_loss_repaired :
-  forall (V : list Z) (B index sub : Z) (crc_client crc_server : bool) (fuel : nat) (j : Z),
+  forall (V : list Z) (B index sub : Z) (crc_client crc_server size_ind : bool) (fuel : nat) (j : Z),
   1 <= zlen V < 4294967296 -> 1 <= B <= 127 -> (length V + 1 < fuel)%nat ->
   2 <= j <= 1 + (zlen V + 6) / 7 ->
   exists u w,
-    ul_transfer (faulty ul_srv) fuel (mknet (fs_init (us_init V crc_server) [FDropS j]) [] []) index sub B crc_client = (Ok V, u, w) /\
+    ul_transfer (faulty ul_srv) fuel (mknet (fs_init (us_init V crc_server size_ind) [FDropS j]) [] []) index sub B crc_client = (Ok V, u, w) /\
     u_done u = true /\ u_error u = false /\ us_ended (f_inner (n_srv w)) = true /\ us_bad (f_inner (n_srv w)) = 0.
 Proof.
-  intros V B index sub crc_client crc_server fuel j HV HB Hfuel Hj.
-  exact (upload_single_loss_section V B crc_client crc_server [FDropS j] HB (lostb_drops j) j (fun ns outs => mangle_single_drop j outs ns) index sub fuel HV Hj Hfuel).
+  intros V B index sub crc_client crc_server size_ind fuel j HV HB Hfuel Hj.
+  exact (upload_single_loss_section V B crc_client crc_server size_ind [FDropS j] HB (lostb_drops j) j
+           (fun ns outs => mangle_single_drop j outs ns) index sub fuel HV Hj Hfuel).
 Qed.
